@@ -17,11 +17,11 @@
 enum {
   OP_START_A, OP_START_B, OP_START_INVALID, OP_START_FAILING, OP_PID, OP_WRITE, OP_WRITE_NULL0, OP_READ_OUT, OP_READ_ERR, OP_READ_OUT0, OP_READ_IN, OP_READ_NULLBUF,
   OP_CLOSE_IN, OP_CLOSE_OUT, OP_CLOSE_ERR, OP_CLOSE_BAD, OP_POLL, OP_POLL_NULL, OP_WAIT0, OP_WAIT_DEADLINE, OP_TERMINATE, OP_KILL, OP_STOP_W0, OP_STOP_KINF,
-  OP_DESTROY_NEW, OP_CHILD_STEP, OP_TIME_PASSES, OP_NULL_HANDLE, OP_WAIT0_EINTR, OP_START_EMPTY_INPUT, NOPS
+  OP_DESTROY_NEW, OP_CHILD_STEP, OP_TIME_PASSES, OP_NULL_HANDLE, OP_WAIT0_EINTR, OP_START_EMPTY_INPUT, OP_STOP_BAD, NOPS
 };
 static const char *const op_names[NOPS] = { "start(echo)", "start(exit0)", "start(invalid)", "start(failing,deadline)", "pid", "write(ab)", "write(NULL,0)", "read(out,4)",
   "read(err,4)", "read(out,0)", "read(in)", "read(NULL buffer)", "close(in)", "close(out)", "close(err)", "close(9)", "poll(15,0)", "poll(NULL)", "wait(0)",
-  "wait(DEADLINE)", "terminate", "kill", "stop{wait 0}", "stop{kill INF}", "destroy+new", "child-step", "time-passes", "NULL-handle-calls", "wait(0)-with-interrupted-reap", "start(echo,input of size 0)" };
+  "wait(DEADLINE)", "terminate", "kill", "stop{wait 0}", "stop{kill INF}", "destroy+new", "child-step", "time-passes", "NULL-handle-calls", "wait(0)-with-interrupted-reap", "start(echo,input of size 0)", "stop{wait 0, action 7}" };
 
 enum { L_NS, L_RUN, L_EX };
 enum { E_OPEN, E_CLOSED, E_NOPIPE };
@@ -209,6 +209,18 @@ static void do_op(int op)
         expect(op, r2, r2 == REPROC_EINVAL, "zero sources");
       }
       break;
+    case OP_STOP_BAD: {
+      /* a value that is no stop action: once it is reached the answer is the invalid-argument error (a child found exited by the wait before it
+       * ends the sequence with its status first) */
+      reproc_stop_actions sa = { { REPROC_STOP_WAIT, 0 }, { (REPROC_STOP) 7, 0 }, { REPROC_STOP_NOOP, 0 } };
+      int zombie = CH && CH->state == CH_ZOMBIE;
+      r = hx_stop(P, sa);
+      if (life == L_NS) expect(op, r, r == REPROC_EINVAL, "not started");
+      else if (life == L_EX) expect(op, r, r == status_val, "the cached status");
+      else if (zombie) { expect(op, r, r == CH->expect_status, "the child has exited"); if (r >= 0) note_reaped(r); }
+      else expect(op, r, r == REPROC_EINVAL, "an action that does not exist");
+      break;
+    }
     case OP_WAIT0: case OP_STOP_W0: {
       reproc_stop_actions sa = { { REPROC_STOP_WAIT, 0 }, { REPROC_STOP_NOOP, 0 }, { REPROC_STOP_NOOP, 0 } };
       int zombie = CH && CH->state == CH_ZOMBIE;
